@@ -1,0 +1,17 @@
+//go:build verif
+
+package core
+
+// VerifCheckCycle runs the cycle detector once over the given graph and returns the reported cycle (nil if none).
+func VerifCheckCycle(graph *BuildGraph) []*BuildTarget {
+	c := &cycleDetector{graph: graph}
+	if err := c.Check(); err != nil {
+		return err.Cycle
+	}
+	return nil
+}
+
+// VerifDefaultConfigFiles returns the default list of config file locations, in application order.
+func VerifDefaultConfigFiles() []string {
+	return defaultConfigFiles()
+}
